@@ -5,6 +5,7 @@
 package simrt
 
 import (
+	"os"
 	"fmt"
 	"hash/fnv"
 	"runtime/debug"
@@ -179,6 +180,8 @@ type Sim struct {
 	Stats       Stats
 	yieldCount  map[string]int
 	RMWPreempts uint64
+	OnSQL       func() // driver hook: called right before each database statement executes
+	PauseAt     uint64 // hand the baton back to the driver as soon as Step reaches this value (0 = off)
 }
 
 type Stats struct {
@@ -189,8 +192,12 @@ var cur *Sim
 
 func Current() *Sim { return cur }
 
+// VERIF_TRACE=1 prints every scheduler event of every simulator to stderr (debugging a replay).
+var traceStderr = os.Getenv("VERIF_TRACE") != ""
+
 func New(seed uint64) *Sim {
 	root := NewRand(seed)
+
 	s := &Sim{
 		Seed:       seed,
 		back:       make(chan struct{}),
@@ -204,6 +211,7 @@ func New(seed uint64) *Sim {
 		Policy:     Policy{Name: "atomic"},
 	}
 	s.net = newNetState(s)
+	s.TraceOn = traceStderr
 	cur = s
 	return s
 }
@@ -266,7 +274,11 @@ func (s *Sim) logEvent(kind string, t *Task, site string) {
 		if t != nil {
 			name = t.Name
 		}
-		s.Trace = append(s.Trace, fmt.Sprintf("%d %s %s %s", s.Step, name, kind, site))
+		if traceStderr {
+			fmt.Fprintf(os.Stderr, "%d %s %s %s\n", s.Step, name, kind, site)
+		} else {
+			s.Trace = append(s.Trace, fmt.Sprintf("%d %s %s %s", s.Step, name, kind, site))
+		}
 	}
 }
 
@@ -414,8 +426,20 @@ func Yield(site string) {
 	s.now += time.Microsecond
 	s.Stats.Yields++
 	s.logEvent("y", t, site)
+	if s.PauseAt != 0 && s.Step >= s.PauseAt {
+		t.State = Runnable
+		s.park(t)
+		if s.OnSQL != nil && strings.HasSuffix(site, "#sql") {
+			s.OnSQL()
+		}
+		return
+	}
 	if s.shouldPreempt(t, site, false) {
 		s.preempt(t)
+	}
+	if s.OnSQL != nil && strings.HasSuffix(site, "#sql") {
+		// the statement behind this yield executes next, with nothing in between
+		s.OnSQL()
 	}
 }
 
@@ -512,6 +536,10 @@ func Block(site, what string, pred func() bool) {
 	s.actStep++
 	s.now += time.Microsecond
 	s.logEvent("b", t, site)
+	if s.PauseAt != 0 && s.Step >= s.PauseAt {
+		t.State = Runnable
+		s.park(t)
+	}
 	if pred() {
 		if s.shouldPreempt(t, site, true) {
 			s.preempt(t)
@@ -720,10 +748,23 @@ func (s *Sim) Run(stop func() bool, advanceTime bool) StopReason {
 // Settle runs until quiescence, firing due timers.
 func (s *Sim) Settle() StopReason { return s.Run(nil, true) }
 
-// RunSteps runs until at least n more scheduler steps have elapsed or quiescence.
+// RunSteps runs until exactly n more scheduler steps have elapsed (the running task is paused at
+// that yield point) or quiescence.
 func (s *Sim) RunSteps(n uint64) StopReason {
-	target := s.Step + n
-	return s.Run(func() bool { return s.Step >= target }, false)
+	return s.RunToStep(s.Step+n, false)
+}
+
+// RunToStep runs until the step counter reaches k (pausing the running task right there), or
+// until nothing is runnable.
+func (s *Sim) RunToStep(k uint64, advanceTime bool) StopReason {
+	if s.Step >= k {
+		return Stopped
+	}
+	old := s.PauseAt
+	s.PauseAt = k
+	r := s.Run(func() bool { return s.Step >= k }, advanceTime)
+	s.PauseAt = old
+	return r
 }
 
 func (s *Sim) Tasks() []*Task { return s.tasks }
